@@ -13,18 +13,10 @@ Local Open Scope N_scope.
 
 Record case := { c_cmds : list (N * list bytes); c_replies : list bytes }.
 
-Fixpoint replies_eqb (a b : list bytes) : bool :=
-  match a, b with
-  | [], [] => true
-  | x :: a', y :: b' => bytes_eqb x y && replies_eqb a' b'
-  | _, _ => false
-  end.
-
 Definition check (c : case) : verdict :=
   let mr := snd (run current [] (c_cmds c)) in
-  let sr := snd (spec_run empty_map (c_cmds c)) in
   mk_verdict (negb (replies_eqb (map encode_reply mr) (c_replies c)))
-             (negb (replies_eqb (map encode_reply sr) (c_replies c)))
+             (negb (conforms_b (c_cmds c) (c_replies c)))
              (if keys_nonempty (c_cmds c) then 0 else 1).
 
 (* constructor helpers: printable byte strings as text, the rest as hex;
